@@ -126,7 +126,8 @@ def run(prog, names=None):
         # distinguishing callees
         if row.get("call") or row.get("nocall"):
             cs = callee_strings(prog, f)
-            missing = [p for p in row.get("call", []) if not matches(p, cs)]
+            # an entry may be a list of alternatives: equivalent primitives that distinguish the function equally well
+            missing = [p for p in row.get("call", []) if not (any(matches(q, cs) for q in p) if isinstance(p, list) else matches(p, cs))]
             forbidden = [p for p in row.get("nocall", []) if matches(p, cs)]
             key = "std.%s:primitive" % name
             if missing or forbidden:
